@@ -122,6 +122,9 @@ def k2_tokens(run, texts, where):
         return
     docs = list(zip(texts, toks)) + [(joined, jt)]
     res = model.batch(ENG, [T(Sym("split"), t) for _x, t in docs])
+    # the same from the TEXT: Gql/Lex.v + Model/TopLevel.v entirely inside the model (Model/LexTop.v)
+    ascii_docs = [x for x, _t in docs if x.isascii()]
+    res_text = dict(zip(ascii_docs, model.batch(ENG, [[Sym("lextop"), Sym("split-text"), x] for x in ascii_docs])))
     per_file = []
     for (text, _t), r in zip(docs, res):
         want = parser_split(text)
@@ -131,6 +134,14 @@ def k2_tokens(run, texts, where):
         run.dist("toplevel_documents", "type-system document")
         got = None if r[0] != "ok" else [(int(n), sm[0] == "t", sm[1], sm[2]) if sm != "none" else (int(n),) for n, sm in r[1]]
         per_file.append(got)
+        rt = res_text.get(text)
+        if rt is not None:
+            got_t = None if rt[0] != "ok" else [(int(n), sm[0] == "t", sm[1], sm[2]) if sm != "none" else (int(n),) for n, sm in rt[1]]
+            run.dist("toplevel_documents", "lexed and split inside the model")
+            if got_t != want:
+                run.broken("K2 Gql/Lex.v + Model/TopLevel.v (from text) split a document differently from graphql-core's parser",
+                           json.dumps({"where": where, "text": text, "parser": want, "model": got_t, "raw": rt if rt[0] != "ok" else None})[:1800])
+                return
         if got != want:
             run.broken("K2 Model/TopLevel.v splits a document differently from graphql-core's parser",
                        json.dumps({"where": where, "text": text, "parser": want, "model": got})[:1800])
@@ -153,6 +164,9 @@ TRICKY_DOCS = [
     "union extend = directive", "enum E @a { A @deprecated B }", "input on { on: on = on }", "extend interface I implements J",
     '"desc" type type implements I & J @d(x: {}) { input: enum } union U = | type | B',
     "extend schema @a directive @on repeatable on FIELD | OBJECT",      # the documents of Example C19_join_hypotheses_met
+    # the texts of Example C19_text_join_hypotheses_met
+    '"""a block\ndescription""" type type implements I & J @d(x: {}) { input: enum }  # trailing comment, no line feed',
+    "extend schema @a\ndirective @on repeatable on FIELD | OBJECT",
     "type Foo", "type Foo # trailing comment", "scalar S", "union U @a", "enum E", "input I", "interface I",
 ]
 
@@ -167,6 +181,12 @@ def k2_tricky_docs(ctx):
     # continues the body-less definition before it (replay of the Example C19_join_needs_documents on the real parser)
     from graphql import parse
 
+    # texts that do not lex (the side condition of C19_tokens_join): both lexers refuse them
+    for bad in ('"unterminated', 'type T { a: Int } """open block', 'type T { a: "x\ny" }'):
+        r = model.call(ENG, [Sym("lextop"), Sym("count-tokens"), bad])
+        run.count()
+        if (lex(bad) is None) != (r == "no-lex"):
+            run.broken("K2 lexers disagree on a text that should not lex", f"{bad!r}: graphql-core {lex(bad)}, model {r}")
     a, b = "type Foo", "{ a: b }"
     real = [len(parse(x).definitions) for x in (a, b, a + "\n" + b)]
     m = model.batch(ENG, [T(Sym("split"), lex(x)) for x in (a, b, a + "\n" + b)])
@@ -485,7 +505,7 @@ FILE_EXTS = [".graphql", ".graphqls", ".gql", ".graphql", ".gql", ".GQL", ".grap
 SPECIAL = [".graphql", ".gql", "a..gql", "gql", "graphql", "README.md"]
 
 
-def gen_tree(rng, with_suffixed_dir, with_bad):
+def gen_tree(rng, with_suffixed_dir, with_bad, many=False):
     dirs = {()}
     for _ in range(rng.randint(0, 6)):
         base = rng.choice(sorted(dirs))
@@ -495,9 +515,11 @@ def gen_tree(rng, with_suffixed_dir, with_bad):
         dirs.add((rng.choice(SUFFIXED_DIRS),))
     files = {}
     n = 0
-    for _ in range(rng.randint(1, 9)):
+    for k in range(rng.randint(20, 90) if many else rng.randint(1, 9)):
         d = rng.choice(sorted(dirs))
         name = rng.choice(SPECIAL) if rng.random() < 0.12 else rng.choice(STEMS) + rng.choice(FILE_EXTS)
+        if many:   # a schema split into MANY files (more than any plausible batching threshold)
+            name = rng.choice(STEMS) + str(k) + rng.choice(EXTS)
         if name in (".", "..", ""):
             continue
         p = d + (name,)
@@ -556,7 +578,7 @@ def k_loader(ctx, tmp):
     for i in range(ntrees):
         with_sd = i % 6 == 0
         with_bad = i % 3 == 1
-        dirs, files = gen_tree(rng, with_sd, with_bad)
+        dirs, files = gen_tree(rng, with_sd, with_bad and i % 8 != 5, many=i % 8 == 5)
         root = os.path.join(tmp, f"t{i}")
         os.makedirs(root)
         materialise(root, dirs, files)
@@ -578,7 +600,7 @@ def k_loader(ctx, tmp):
                   "impl": {"walk": r_walk, "load": r_load}}
 
         nsel = len(r_walk)
-        run.dist("loader_selected_files", str(min(nsel, 6)) + ("+" if nsel > 6 else ""))
+        run.dist("loader_selected_files", str(nsel) if nsel <= 6 else "7-16" if nsel <= 16 else "17-32" if nsel <= 32 else "33+")
         run.dist("loader_outcome", r_load[0] if r_load[0] == "ok" else r_load[1])
         has_sd = any(d and d[-1].endswith(EXTS) for d in dirs)
         if has_sd:
@@ -1108,11 +1130,22 @@ def corpus_scenarios():
                   "input All {\n  x: Int @deprecated\n}"],
          "features": feat(input_deprecated=2, inputs=2, definitions=3, input_defaults=1, default_kinds=["object"])},
     ]
+    many = ([f"enum Em{i} {{\n  A{i}\n  B{i}\n}}" for i in range(8)] +
+            [f"input Im{i} {{\n  a: Int = {i}\n  e: Em{i % 8} = A{i % 8}\n}}" for i in range(10)] +
+            [f"type Tm{i} {{\n  id: ID!\n  e: Em{i % 8}\n}}" for i in range(10)] +
+            ["type Query {\n" + "\n".join(f"  t{i}(i: Im{i}): Tm{i}" for i in range(10)) + "\n}"])
+    out.append({"seed": "corpus-many-files", "customs": [], "defs": many,
+                "ops": "\n".join(f"query Q{i}($i: Im{i}) {{ t{i}(i: $i) {{ id e }} }}" for i in range(0, 10, 3)),
+                "features": feat(definitions=len(many), inputs=10, input_defaults=20, operations=4, default_kinds=["enum", "int"])})
     for sc in out:
         # former F19-dir-suffix: directories named like schema files, at two levels
         rest = list(range(2, len(sc["defs"])))
         sc["layouts"] = [[("v1.graphql/schema.graphql", [0] + rest), ("v1.graphql/x.gql/q.graphqls", [1])],
                          [("a.gql", [1]), ("old.graphqls/b.graphql", rest + [0])]]
+        if len(sc["defs"]) > 16:   # one definition per file, > 16 files, three directory levels, reverse name order
+            n = len(sc["defs"])
+            sc["layouts"] = [[(f"{'abc'[i % 3]}/{'xy'[i % 2]}/f{n - i:02d}{EXTS[i % 3]}", [i]) for i in range(n)],
+                             [(f"f{(i * 7) % n:02d}{EXTS[i % 3]}", [i]) for i in range(n)]]
         sc["noise"] = ["README.md"]
         sc["introspection"] = [{"headers": {"Authorization": "$C19_TOKEN"}, "env": {"C19_TOKEN": "tok"}}]
         sc["history"] = {"headers": {"Authorization": "$C19_TOKEN", "X-Chain": "$C19_CHAIN", "X-Plain": "p"},
@@ -1177,7 +1210,7 @@ def k_scenarios(ctx, tmp):
     run.extra["tls_loopback"] = bool(tls)
     seeds = [ctx.seed * 100000 + 1000 + i for i in range(n)]
     scs = corpus_scenarios() + [scenario_input(ctx, s, i, tls) for i, s in enumerate(seeds)]
-    run.extra["corpus_scenarios"] = [sc["seed"] for sc in scs[:2]]
+    run.extra["corpus_scenarios"] = [sc["seed"] for sc in scs if str(sc["seed"]).startswith("corpus")]
     with ThreadPoolExecutor(max_workers=int(os.environ.get("VERIF_JOBS", "16"))) as ex:
         futs = [ex.submit(run_worker, sc, tmp) for sc in scs]
         # meanwhile, in this process: type map of every layout (model vs build_ast_schema), field decisions
@@ -1209,7 +1242,7 @@ def k_scenarios(ctx, tmp):
         for li, layout in enumerate(sc["layouts"]):
             key = f"split{li}"
             run.count()
-            run.dist("split_files", str(min(len(layout), 8)))
+            run.dist("split_files", str(len(layout)) if len(layout) < 8 else "8-16" if len(layout) <= 16 else "17+")
             run.dist("split_depth", str(max(p.count("/") for p, _ in layout)))
             for p, _ in layout:
                 run.dist("split_ext", p.rsplit(".", 1)[-1])
